@@ -180,6 +180,8 @@ def generate(seed, tier):
                          for _ in range(rw.randrange(1, 3))]
     if mode == "csd" and rw.random() < 0.3:
         sc["rows_of_recording"] = rw.randrange(1, 2 ** 31)
+    elif mode == "csd" and rw.random() < 0.15:
+        sc["overlapping_views"] = rw.choice([1, 1, 2, 7])     # the two channels are overlapping windows of ONE buffer (y = buf[d:], x = buf[:-d])
     if giant:
         sc["via"] = "kernel"
         sc.pop("refills", None)
@@ -247,6 +249,12 @@ def execute(sc, out):
         big = np.random.default_rng(sc["rows_of_recording"]).normal(size=(4, sc["N"])) * 7.0
         bufx, bufy = big[2], big[3]
         out.count("channels_are_rows_of_a_larger_recording")
+    elif sc["mode"] == "csd" and sc.get("overlapping_views"):
+        # a record and its delayed self taken as two windows of one buffer: the channels share memory without being equal
+        dd = int(sc["overlapping_views"])
+        one = np.zeros(sc["N"] + dd, dtype=np.float64)
+        bufx, bufy = one[:sc["N"]], one[dd:dd + sc["N"]]
+        out.count("channels_are_overlapping_views_of_one_buffer")
     else:
         bufx = np.empty(sc["N"], dtype=np.float64)
         bufy = np.empty(sc["N"], dtype=np.float64) if sc["mode"] == "csd" else None
